@@ -1908,6 +1908,8 @@ func (d *Driver) calleeOf(callPath []string) string {
 // metadata; the script of a job must name that job's own directories (working
 // directory, stdout, stderr, the metadata path handed to the command) and nobody else's
 // - jobs are rendered concurrently when --maxjobs is set.
+var tmpdirRe = regexp.MustCompile(`TMPDIR="([^"]*)"`)
+
 func (d *Driver) checkJobScripts() {
 	var scripts []string
 	filepath.Walk(d.psdir, func(p string, info os.FileInfo, err error) error {
@@ -1928,6 +1930,12 @@ func (d *Driver) checkJobScripts() {
 			if !strings.Contains(text, want) && len(d.res.ScriptBad) < 10 {
 				d.res.ScriptBad = append(d.res.ScriptBad, d.rel(sp)+": does not contain its own "+strings.TrimSpace(strings.TrimPrefix(want, "2"))+" | "+strings.ReplaceAll(text, "\n", " ; "))
 				break
+			}
+		}
+		// the environment the job is given: its temporary directory is its own
+		for _, m := range tmpdirRe.FindAllStringSubmatch(text, -1) {
+			if !strings.HasPrefix(m[1], md+"/") && len(d.res.ScriptBad) < 10 {
+				d.res.ScriptBad = append(d.res.ScriptBad, d.rel(sp)+": the job's TMPDIR is "+d.rel(m[1])+", not a directory of its own")
 			}
 		}
 		for _, other := range scripts {
